@@ -501,6 +501,15 @@ def compose_lockstep(run, entry, cfg, fol, hist):
                 return 'mismatch', t
             for r, ins in zip(dut.fol, pre):
                 fe, fcfg = r['entry'], r['cfg']
+                if r.get('left_domain'):
+                    run.count('follower_cycles_not_judged_after_leaving_domain')
+                    continue
+                if fe.domain is not None and fe.domain(fcfg, ins) != ins:
+                    # the block under test drove this follower outside the follower's documented input domain (push+pop,
+                    # shift-left+shift-right, ...): what the follower does then is not specified, now or later in this history
+                    r['left_domain'] = True
+                    run.count('followers_driven_outside_their_domain')
+                    continue
                 s2 = fe.nxt(fcfg, r['state'], ins)
                 if s2 != r['state']:
                     r['changes'] += 1
@@ -555,6 +564,12 @@ def run_check(run, tier, seed, shard):
     run.assume('simultaneous push+pop, simultaneous shift-left+shift-right and two ports writing one address in one cycle '
                'are undocumented and never applied; a pop beyond the stored elements returns an unspecified value (not judged)')
     run.assume('memories: a read returns the content of the read address before that edge\'s writes, on every port')
+    run.assume('a downstream block of the composition class is judged only while its inputs (including the one driven by the block '
+               'under test) stay inside its documented input domain; once outside, it is not judged for the rest of the history')
+    run.assume('ClockDivider frequencies are the decimal values the caller wrote (exact rational arithmetic); pairs whose IEEE '
+               'quotient lands on another integer part than the exact ratio (0.6, 0.1) are left out as float rounding the '
+               'documentation does not settle; dual-port memory nets may all have different data widths: a cell keeps the '
+               'written value, a read port shows it reduced to its own width')
     run.assume('composition: a clocked block wired to the output of another clocked block sees, at an edge, the value that output '
                'had before the edge, whichever of the two was instantiated first (outputs of clocked blocks change at settle only)')
     run.assume('Counter without inc port always increments, without reset port never resets; ClockDivider toggles every '
